@@ -204,10 +204,23 @@ def _hull_ref(s, ori, kind):
 
 def build(t, size, ori, centre, margin=0.0, want_impl=True, want_ref=True):
     """Returns (collider or None, refshape or None).  centre = position of the pose origin."""
-    from distance3d import colliders as C
     centre = np.ascontiguousarray(np.asarray(centre, dtype=float))
-    T = pose(ori, centre)
-    s = SIZES[t][size]
+    return build_explicit(t, SIZES[t][size], pose(ori, centre), margin, want_impl, want_ref, _ori=ori)
+
+
+def scaled_params(t, s, k):
+    if t in ("mesh", "hull"):
+        return (s[0], s[1] * k)
+    if isinstance(s, tuple):
+        return tuple(x * k for x in s)
+    return s * k
+
+
+def build_explicit(t, s, T, margin=0.0, want_impl=True, want_ref=True, _ori=None):
+    """Build from explicit size parameters and a 4x4 pose (used for transformed / scaled scenes)."""
+    from distance3d import colliders as C
+    T = np.ascontiguousarray(np.asarray(T, dtype=float))
+    centre = np.ascontiguousarray(T[:3, 3].copy())
     impl = ref = None
     if t == "sphere":
         if want_impl:
@@ -257,14 +270,15 @@ def build(t, size, ori, centre, margin=0.0, want_impl=True, want_ref=True):
         if want_impl:
             impl = C.MeshGraph(T.copy(), v.copy(), tri.copy())
         if want_ref:
-            ref = _hull_ref(s, ori, "mesh").translated(centre)
+            ref = (_hull_ref(s, _ori, "mesh").translated(centre) if _ori is not None
+                   else rs.Hull(v @ T[:3, :3].T + centre, "mesh"))
     elif t == "hull":
         v, tri = mesh_data(s[0])
         w = np.ascontiguousarray((v * s[1]) @ T[:3, :3].T + centre)
         if want_impl:
             impl = C.ConvexHullVertices(w.copy())
         if want_ref:
-            ref = _hull_ref(s, ori, "hull").translated(centre)
+            ref = (_hull_ref(s, _ori, "hull").translated(centre) if _ori is not None else rs.Hull(w, "hull"))
     else:
         raise ValueError(t)
     if margin:
